@@ -199,6 +199,13 @@ CGuard == {Bin("<", Var("a"), Num(10)), Bin(">=", Var("a"), Num(10)), Bin("<", V
 CMod == {S(Call("hs", <<>>)), S(Call("h", <<>>)), S(Asg("-", Var("b"), Num(1))), S(Asg("+", Var("b"), Num(200))), Set("b", 1), S(Asg("=", Var("b"), Bin("<", Var("sa"), Num(5))))}
 F5e == {Prog("F5e", <<If(g, <<m, S(Asg("=", Var("c"), Bin(op, x, y)))>>, <<S(Asg("=", Var("c"), Bin(op, x, y)))>>)>>) : g \in CGuard, m \in CMod, op \in {"+", "-"}, x \in {Var("a"), Var("X")}, y \in {Num(1), Var("b")}}
        \cup {Prog("F5e", <<While(g, <<m, S(Asg("+", Var("a"), Num(1)))>>)>>) : g \in {Bin("<", Var("a"), Num(3))}, m \in CMod}
+\* F5f: comparisons inside (inline) functions, called when the operand's value is known to the optimiser or the carry is not what
+\* the comparison would leave
+F5f == {Prog("F5f", <<pre, S(Call("cle", <<>>))>>) : pre \in {Set("X", 5), Set("X", 3), Set("X", 0), S(Asg("=", Var("X"), Bin("+", Var("a"), Var("b")))), S(Asg("=", Var("b"), Bin("-", Var("a"), Var("b"))))}}
+       \cup {Prog("F5f", <<pre, S(Call("cgt", <<x>>))>>) : pre \in {Set("a", 5), Set("a", 3), S(Asg("=", Var("b"), Bin("+", Var("a"), Var("b")))), S(Asg("=", Var("b"), Bin("-", Var("a"), Var("b"))))}, x \in {Var("a"), Num(5), Num(3), Var("b")}}
+       \cup {Prog("F5f", <<Set("X", k), S(Call("cle", <<>>)), S(Asg("=", Var("b"), Var("c"))), Set("a", k), S(Call("cgt", <<Var("a")>>))>>) : k \in {2, 3, 4, 200}}
+\* F5g: parameters of different types next to each other (each parameter keeps its own width and signedness)
+F5g == {Prog("F5g", <<S(Call("ps", <<x, y>>))>>) : x \in {Var("sa"), Num(200), Var("a")}, y \in {Var("a"), Num(200), Var("sa"), Var("X")}}
 \* F6: calls of functions whose bodies contain loops, early returns, switches, locals and further calls
 \* (compared variant against variant by C14; these functions have no CSem body)
 C6 == {Call("lp", <<x>>) : x \in {Var("b"), Num(3), Var("X")}} \cup {Call("er", <<x>>) : x \in {Var("a"), Num(128), Idx("arr", Var("X"))}}
@@ -249,6 +256,11 @@ FL == {LProg(<<Decl("i1", "i", "char", None), S(Asg("=", LV("i1", "i"), e1)), Bl
                     <<Decl("t1", "tmp", "char", None), S(Asg("=", LV("t1", "tmp"), Idx("arr", LV("k1", "k")))), S(Asg("+", Var("c"), LV("t1", "tmp")))>>)>>, <<Lc("k1", 8, FALSE), Lc("t1", 8, FALSE)>>)}
       \cup {LProg(<<Decl("a1", "a", "char", None), S(Asg("=", LV("a1", "a"), e1)), S(Asg("=", Var("b"), LV("a1", "a"))), S(Asg("=", Var("c"), Call("shd", <<LV("a1", "a")>>)))>>, <<Lc("a1", 8, FALSE)>>) :
                e1 \in {Num(5), Var("X"), Bin("+", Var("b"), Num(1))}}     \* a local spelled like the global a: the global is untouched
+      \* initialisers of locals go through their own expression grammar: every operator class in an initialiser
+      \cup {LProg(<<Decl("i1", "i", "char", e1), S(Asg("=", Var("c"), LV("i1", "i")))>>, <<Lc("i1", 8, FALSE)>>) :
+               e1 \in {Bin("&&", Var("a"), Var("b")), Bin("||", Var("a"), Var("b")), Bin("&", Var("a"), Var("b")), Bin("|", Var("a"), Num(1)), Bin("<", Var("a"), Var("b")), Bin("==", Var("a"), Num(3)),
+                       Un("!", Var("a")), Un("-", Var("a")), Un("~", Var("a")), Bin("<<", Var("a"), Num(1)), Bin(">>", Var("a"), Num(2)), Cond(Var("a"), Var("b"), Num(7)), Call("f", <<Var("a")>>),
+                       Idx("arr", Var("X")), Bin("^", Var("a"), Var("X")), Bin("-", Var("a"), Num(1)), Bin("!=", Var("a"), Var("b")), Bin(">=", Var("X"), Num(2))}}
 \* F9: operand-kind coverage: every destination kind with every source kind, plain and compound, including
 \* Y-indexed arrays of shorts, pointer dereference and pointer indexing (the addressing modes C04/C13 quantify over)
 Leaf9 == Leaf \cup {Idx("sarr", Var("Y")), Idx("tab", Var("Y")), Deref("p"), Idx("p", Var("Y")), Idx("arr", Num(0)), Idx("sarr", Num(1))}
@@ -359,6 +371,11 @@ F2d == {Prog("F2d", <<If(Bin(lop, p, q), <<Set("X", 1)>>, <<If(r, <<Set("X", 2)>
           q \in {Var("b"), Bin("<", Var("b"), Num(5))}, r \in {Var("b"), Var("a"), Un("!", Var("b")), Bin("==", Var("b"), Num(0))}}
        \cup {Prog("F2d", <<If(p, <<Set("X", 1)>>, <<If(Bin(lop, q, r), <<Set("X", 2)>>, <<Set("X", 3)>>)>>)>>) : lop \in {"&&", "||"}, p \in {Var("a"), Bin("<", Var("a"), Var("b"))},
           q \in {Var("b"), Var("a")}, r \in {Var("c"), Un("!", Var("a"))}}
+\* F2e: if / else if where the then-branch leaves a carry of its own (subtraction, addition, comparison): what the else branch
+\* believes about the carry must come from ITS path
+F2e == {Prog("F2e", <<If(g, <<t>>, <<If(Bin(op, Var("a"), k), <<Set("X", 1)>>, <<Set("X", 2)>>)>>)>>) : g \in {Bin("==", Var("a"), Num(0)), Bin("<", Var("a"), Num(2)), Bin(">=", Var("a"), Var("b"))},
+          t \in {S(Asg("=", Var("c"), Bin("-", Var("a"), Var("b")))), S(Asg("=", Var("c"), Bin("+", Var("a"), Num(200)))), S(Asg("=", Var("c"), Bin("<", Var("b"), Num(9))))},
+          op \in {">", "<=", ">=", "<"}, k \in {Num(1), Var("b")}}
 \* FK: identifiers that begin with a keyword (elsev, returnv, dov) right where the keyword could stand
 FK == {Prog("FK", <<If(g, <<Set("b", 1)>>, <<>>), Set("elsev", 2), S(Asg("=", Var("c"), Var("elsev")))>>) : g \in {Var("a"), Bin("<", Var("a"), Var("b"))}}
       \cup {Prog("FK", <<Set("returnv", 3), S(Inc(FALSE, 1, Var("returnv"))), S(Asg("=", Var("c"), Var("returnv")))>>),
@@ -454,7 +471,7 @@ RW == {Pair2("commute", <<S(Asg("=", d, Bin(op, l, r)))>>, <<S(Asg("=", d, Bin(o
       \cup {Pair2("callbody", <<S(Asg("=", d, Call("g", <<x, y>>)))>>, <<S(Asg("=", d, Bin("-", x, y)))>>) : d \in {Var("a"), Var("Y")}, x \in Arg, y \in {Var("b"), Num(1)}}
       \cup {Pair2("callbody", <<S(Call("h", <<>>)), S(Asg("=", Var("b"), Var("a")))>>, <<S(Inc(FALSE, 1, Var("a"))), S(Asg("=", Var("b"), Var("a")))>>)}
       \cup {Pair2("callbody", <<S(Call("w", <<x>>))>>, <<S(Asg("=", Var("c"), x))>>) : x \in Arg}
-AllFams == F3e \cup F7dAll \cup F1n \cup F2d \cup FK \cup F5e \cup FT \cup FG \cup FP \cup FW \cup F3d \cup F4b \cup F5d \cup F8f \cup F8h \cup F8g \cup FL \cup F5c \cup F6 \cup F8 \cup F9 \cup F1a \cup F1b \cup F1c \cup F1d \cup F1e \cup F1f \cup F1g \cup F2a \cup F2b \cup F2c \cup F2z \cup F2s
+AllFams == F2e \cup F5g \cup F5f \cup F3e \cup F7dAll \cup F1n \cup F2d \cup FK \cup F5e \cup FT \cup FG \cup FP \cup FW \cup F3d \cup F4b \cup F5d \cup F8f \cup F8h \cup F8g \cup FL \cup F5c \cup F6 \cup F8 \cup F9 \cup F1a \cup F1b \cup F1c \cup F1d \cup F1e \cup F1f \cup F1g \cup F2a \cup F2b \cup F2c \cup F2z \cup F2s
            \cup F3a \cup F3b \cup F3c \cup F4 \cup F5a \cup F5b \cup F7a \cup F7b \cup F7c
 Family ==
   CASE Fam = "ALL" -> AllFams [] Fam = "RW" -> RW [] Fam = "FX" -> FX \cup FS
@@ -463,7 +480,7 @@ Family ==
     [] Fam = "F2a" -> F2a [] Fam = "F2b" -> F2b [] Fam = "F2c" -> F2c [] Fam = "F2z" -> F2z [] Fam = "F2s" -> F2s
     [] Fam = "F3a" -> F3a [] Fam = "F3b" -> F3b [] Fam = "F3c" -> F3c
     [] Fam = "F4" -> F4 [] Fam = "F5a" -> F5a [] Fam = "F5b" -> F5b
-    [] Fam = "F7a" -> F7a [] Fam = "F7b" -> F7b [] Fam = "F7c" -> F7c [] Fam = "FW" -> FW [] Fam = "FL" -> FL [] Fam = "F5c" -> F5c [] Fam = "F6" -> F6 [] Fam = "F8" -> F8 [] Fam = "F8g" -> F8g [] Fam = "FP" -> FP [] Fam = "FG" -> FG [] Fam = "FT" -> FT [] Fam = "F5e" -> F5e [] Fam = "FK" -> FK [] Fam = "F1n" -> F1n [] Fam = "F2d" -> F2d [] Fam = "F7d" -> F7dAll [] Fam = "F3e" -> F3e [] Fam = "F8f" -> F8f [] Fam = "F3d" -> F3d [] Fam = "F4b" -> F4b [] Fam = "F5d" -> F5d [] Fam = "F9" -> F9
+    [] Fam = "F7a" -> F7a [] Fam = "F7b" -> F7b [] Fam = "F7c" -> F7c [] Fam = "FW" -> FW [] Fam = "FL" -> FL [] Fam = "F5c" -> F5c [] Fam = "F6" -> F6 [] Fam = "F8" -> F8 [] Fam = "F8g" -> F8g [] Fam = "FP" -> FP [] Fam = "FG" -> FG [] Fam = "FT" -> FT [] Fam = "F5e" -> F5e [] Fam = "FK" -> FK [] Fam = "F1n" -> F1n [] Fam = "F2d" -> F2d [] Fam = "F7d" -> F7dAll [] Fam = "F3e" -> F3e [] Fam = "F5f" -> F5f [] Fam = "F5g" -> F5g [] Fam = "F2e" -> F2e [] Fam = "F8f" -> F8f [] Fam = "F3d" -> F3d [] Fam = "F4b" -> F4b [] Fam = "F5d" -> F5d [] Fam = "F9" -> F9
 
 VARIABLE prog
 Init == prog \in Family
